@@ -68,7 +68,9 @@ pub fn fuzz_bytes(rng: &mut Rng) -> Vec<u8> {
 
 // ---------------------------------------------------------------- matrix (W1/W2)
 
-pub const RANGES_SMALL: [(usize, usize); 9] = [
+/// opcode ranges of the matrix; cheap ranges are listed several times so that the
+/// expensive (1000+) ones are drawn rarely
+pub const RANGES_SMALL: [(usize, usize); 25] = [
     (0, 0),
     (0, 1),
     (1, 1),
@@ -76,6 +78,22 @@ pub const RANGES_SMALL: [(usize, usize); 9] = [
     (2, 9),
     (60, 300),
     (300, 60),
+    (10, 50),
+    (0, 0),
+    (0, 1),
+    (1, 1),
+    (7, 3),
+    (2, 9),
+    (60, 300),
+    (300, 60),
+    (10, 50),
+    (3, 3),
+    (4, 4),
+    (5, 6),
+    (20, 80),
+    (2, 9),
+    (60, 300),
+    (120, 121),
     (10, 50),
     (1000, 1001),
 ];
@@ -340,21 +358,31 @@ where
     }
     let mut seen_states: HashSet<u64> = HashSet::new();
     let mut depth = 0usize;
-    while !frontier.is_empty() && depth < max_depth && stats.runs < budget_runs {
+    while !frontier.is_empty() && depth < max_depth && (depth < exhaustive_depth || stats.runs < budget_runs) {
+        if depth >= exhaustive_depth {
+            // beyond the exhaustive depth the run budget bounds the level width
+            let room = (budget_runs.saturating_sub(stats.runs) / 24 + 1) as usize;
+            if frontier.len() > room {
+                frontier.truncate(room);
+            }
+        }
         stats.levels.push(frontier.len());
         // expand all nodes of this level in parallel
         struct Out {
             acc: Acc,
             children: Vec<(Node, u64)>,
             runs: u64,
+            local_seen: HashSet<u64>,
         }
         let fr = &frontier;
+        let seen_ref = &seen_states;
         let out = par_run(
             fr.len(),
             || Out {
                 acc: Acc::new(),
                 children: Vec::new(),
                 runs: 0,
+                local_seen: HashSet::new(),
             },
             |ni, o: &mut Out| {
                 let node = &fr[ni];
@@ -370,6 +398,13 @@ where
                     if let Some(p) = probe_from_events(&res.events, node.depth + 1, input.len()) {
                         if p.consumed <= input.len() && input.len() - p.consumed > 8 {
                             let st = abstract_state(&p.stack, p.memo_len);
+                            // beyond the exhaustive depth only prefixes that reach a new abstract state go on
+                            let keep = node.depth + 1 < exhaustive_depth
+                                || (!seen_ref.contains(&st) && o.local_seen.insert(st));
+                            if !keep {
+                                check(&cfg, &res, &mut o.acc);
+                                continue;
+                            }
                             o.children.push((
                                 Node {
                                     prefix: input[..p.consumed].to_vec(),
